@@ -688,3 +688,44 @@ def order_free_cache_of_ordered_value(ctx, rep, rule):
 
 
 _add("C03", order_free_cache_of_ordered_value, "C03.16")
+
+
+# ---------------------------------------------------------------- C16: the state vector's allocation fails as a JaqalError
+
+def state_vector_allocation_guarded(ctx, rep, rule):
+    """`numpy.empty(2**n)` refuses at once with ValueError (n >= 64: "Maximum allowed dimension exceeded") or
+    MemoryError; run_jaqal_string lets it through unless the allocation is converted."""
+    ix = ctx.ix
+    m = _method(ix, "jaqalpaq.emulator.unitary.UnitarySerializedEmulator", "_make_subcircuit")
+    rep.rule(rule, "the emulator allocates its state vectors (size 2**n) inside a try whose handler covers ValueError and MemoryError and raises a JaqalError", floor=1)
+    allocs = [c for c in ast.walk(m.node) if isinstance(c, ast.Call) and isinstance(c.func, ast.Attribute) and c.func.attr in ("empty", "zeros", "ones", "full") and "numpy" in ast.unparse(c.func) or (isinstance(c, ast.Call) and isinstance(c.func, ast.Attribute) and c.func.attr in ("empty", "zeros", "ones", "full") and isinstance(c.func.value, ast.Name) and c.func.value.id in ("np", "numpy"))]
+    pow_names = {t.id for a in ast.walk(m.node) if isinstance(a, ast.Assign) and isinstance(a.value, ast.BinOp) and isinstance(a.value.op, (ast.Pow, ast.LShift)) for t in a.targets if isinstance(t, ast.Name)}
+    allocs = [c for c in allocs if c.args and (any(isinstance(x, ast.Name) and x.id in pow_names for x in ast.walk(c.args[0])) or any(isinstance(x, ast.BinOp) and isinstance(x.op, (ast.Pow, ast.LShift)) for x in ast.walk(c.args[0])))]
+    if not allocs:
+        rep.undecided(rule, construct_of(m, "state-vector-allocation"), "no allocation of size 2**n recognised", m.loc())
+        return
+    tries = [t for t in ast.walk(m.node) if isinstance(t, ast.Try)]
+    for c in allocs:
+        cons = construct_of(m, f"state-vector-allocation:{ast.unparse(c)[:24]}")
+        ok = False
+        for t in tries:
+            if not any(x is c for b in t.body for x in ast.walk(b)):
+                continue
+            for h in t.handlers:
+                names = set()
+                if h.type is None:
+                    names = {"BaseException"}
+                else:
+                    names = {ast.unparse(x).split(".")[-1] for x in (h.type.elts if isinstance(h.type, ast.Tuple) else [h.type])}
+                covers = ({"ValueError", "MemoryError"} <= names) or (names & {"Exception", "BaseException"})
+                raises = any(isinstance(r, ast.Raise) and r.exc is not None and "Jaqal" in ast.unparse(r.exc) for b in h.body for r in ast.walk(b))
+                if covers and raises:
+                    ok = True
+        loc = f"{m.path}:{c.lineno}"
+        if ok:
+            rep.ok(rule, cons, "allocation failure becomes a JaqalError", loc)
+        else:
+            rep.violation(rule, cons, f"`{ast.unparse(c)[:50]}` is not guarded: `register q[70]; prepare_all; measure_all` makes run_jaqal_string fail with numpy's ValueError (Maximum allowed dimension exceeded), `register q[40]` with MemoryError -- at once, before any work is done -- instead of a JaqalError", loc, witness="register q[70]\nprepare_all\nmeasure_all")
+
+
+_add("C16", state_vector_allocation_guarded, "C16.37")
